@@ -316,10 +316,11 @@ func (s *indexKVStore) getOrCreateValue(bucketID uint32, key []byte,
 		return id, true, false, nil
 	}
 
+	// snapshot of kv store which the persisted lookup is based on
+	snapshot := s.getSnapshot()
 	bucket, ok := s.bucketCache.Get(bucketID)
 	if !ok {
 		// get from kv store(persist)
-		snapshot := s.getSnapshot()
 		reader := v1.NewIndexKVReader(snapshot)
 		bucket, err = reader.GetBucket(bucketID)
 		if err != nil {
@@ -341,17 +342,42 @@ func (s *indexKVStore) getOrCreateValue(bucketID uint32, key []byte,
 	if createFn == nil {
 		return 0, false, false, nil
 	}
-	id, err = s.createValue(bucketID, key, createFn)
+	id, isNew, err = s.createValue(bucketID, key, createFn, snapshot)
 	if err != nil {
 		return 0, false, false, err
 	}
-	return id, true, true, nil
+	return id, true, isNew, nil
 }
 
-// createValue creates new value.
-func (s *indexKVStore) createValue(bucketID uint32, key []byte, createFn func() (uint32, error)) (uint32, error) {
+// createValue creates new value if it still doesn't exist.
+// The lookups of the caller ran without the lock: another goroutine may have created the value meanwhile,
+// or a flush may have moved it from memory into the kv store, so need check again under the lock.
+func (s *indexKVStore) createValue(bucketID uint32, key []byte,
+	createFn func() (uint32, error), snapshot version.Snapshot,
+) (id uint32, isNew bool, err error) {
 	s.lock.Lock()
 	defer s.lock.Unlock()
+
+	if id, ok := s.getValueFromMem(s.mutable, bucketID, key); ok {
+		return id, false, nil
+	}
+	if id, ok := s.getValueFromMem(s.immutable, bucketID, key); ok {
+		return id, false, nil
+	}
+	if s.snapshot != snapshot {
+		// flush completed after the caller's lookup, look up the new kv store's snapshot
+		reader := v1.NewIndexKVReader(s.snapshot)
+		bucket, err := reader.GetBucket(bucketID)
+		if err != nil {
+			return 0, false, err
+		}
+		if bucket != nil {
+			defer bucket.Release()
+			if id, ok := bucket.GetValue(key); ok {
+				return id, false, nil
+			}
+		}
+	}
 
 	kvs, ok := s.mutable.Get(bucketID)
 	if !ok {
@@ -359,12 +385,12 @@ func (s *indexKVStore) createValue(bucketID uint32, key []byte, createFn func() 
 		s.mutable.Put(bucketID, kvs)
 	}
 	// generate and store value
-	id, err := createFn()
+	id, err = createFn()
 	if err != nil {
-		return 0, err
+		return 0, false, err
 	}
 	kvs[string(key)] = id
-	return id, nil
+	return id, true, nil
 }
 
 // GetValueFromMem returns value from mem store.
